@@ -15,6 +15,7 @@ From SZ Require Async.MapAsyncProofs.
 From SZ Require Async.ZipBPProofs.
 From SZ Require Async.Plain.
 From SZ Require Base.BridgeRefCounter.
+From SZ Require Base.BridgeEmit.
 Import ListNotations.
 
 (* from Async.BufferProofs *)
@@ -120,4 +121,20 @@ Theorem C04_bridge_rc_retain_async : forall (s : rcs) (r : nat) (n : Z), rcnt (r
 Proof. exact (@bridge_rc_retain_async). Qed.
 End S_bridge_rc_retain_async_BridgeRefCounter.
 Print Assumptions C04_bridge_rc_retain_async.
+
+(* from Base.BridgeEmit *)
+Section S_bridge_retain_refs_BridgeEmit.
+Import SZ.Base.BridgeEmit.
+Theorem C04_bridge_retain_refs : forall (w : Pipeline.world) (m : list mdi) (n : Z), KN__refs.gen_retain_refs w m n = Pipeline.retain w m n.
+Proof. exact (@bridge_retain_refs). Qed.
+End S_bridge_retain_refs_BridgeEmit.
+Print Assumptions C04_bridge_retain_refs.
+
+(* from Base.BridgeEmit *)
+Section S_bridge_release_refs_BridgeEmit.
+Import SZ.Base.BridgeEmit.
+Theorem C04_bridge_release_refs : forall (w : Pipeline.world) (m : list mdi) (n : Z), KN__refs.gen_release_refs w m n = Pipeline.release w m n.
+Proof. exact (@bridge_release_refs). Qed.
+End S_bridge_release_refs_BridgeEmit.
+Print Assumptions C04_bridge_release_refs.
 
